@@ -469,6 +469,10 @@ func (o *oracles) afterStep(before, after snap, a applied) {
 		if strings.Contains(a.result, "Result(") {
 			o.violate("C09", "undefined-result:"+evClass(a.ev), "handler returned undeclared result "+a.result)
 		}
+		if s.badJump != "" {
+			o.violate("C09", "mirror-sent-jump-ahead-not-forward:"+s.badJumpSig, "the state machine panics on this (BUG: attempted to jump ahead ...): "+s.badJump)
+			s.badJump = ""
+		}
 		if strings.HasPrefix(a.result, "restart-failed") {
 			// reported by C10
 		} else if s.alive() && !after.ok {
